@@ -219,11 +219,42 @@ def fam_special() -> list[dict]:
     return out
 
 
+def fam_symbolic() -> list[dict]:
+    """size-parameter shapes (lengths n, m): equal parameters are equal lengths"""
+    x, y, z = inp("x", ("n", 3)), inp("y", ("n", 3)), inp("z", ("m", 3))
+    v, w = inp("v", ("n",)), inp("w", (3, "n"))
+    out = [
+        {"id": "sym/add", "inputs": [x, y], "calls": [{"op": "add", "a": 1, "b": 2}]},
+        {"id": "sym/bcast", "inputs": [x, inp("r", (1, 3))],
+         "calls": [{"op": "add", "a": 1, "b": 2}]},
+        {"id": "sym/transpose", "inputs": [x],
+         "calls": [{"op": "transpose", "a": 1, "axes": [1, 0]}]},
+        {"id": "sym/sum1", "inputs": [x], "calls": [{"op": "sum", "a": 1, "axis": 1}]},
+        {"id": "sym/stack", "inputs": [x, y],
+         "calls": [{"op": "stack", "arrays": [1, 2], "axis": 1}]},
+        {"id": "sym/concat_other_axis", "inputs": [x, y],
+         "calls": [{"op": "concatenate", "arrays": [1, 2], "axis": 1}]},
+        {"id": "sym/add_other_param", "inputs": [x, z, inp("r", (1, 3))],
+         "calls": [{"op": "add", "a": 1, "b": 3}, {"op": "add", "a": 2, "b": 3},
+                   {"op": "sum", "a": 4, "axis": 1}]},
+        {"id": "sym/einsum", "inputs": [x, w],
+         "calls": [{"op": "einsum", "spec": "ij,jk->ik", "args": [1, 2]}]},
+        {"id": "sym/matvec", "inputs": [w, v], "calls": [{"op": "matmul", "a": 1, "b": 2}]},
+        {"id": "sym/roll", "inputs": [x], "calls": [{"op": "roll", "a": 1, "shift": 1, "axis": 1}]},
+        {"id": "sym/expand", "inputs": [x], "calls": [{"op": "expand_dims", "a": 1, "axis": 1}]},
+        {"id": "sym/outer", "inputs": [v, inp("u", ("m",))],
+         "calls": [{"op": "einsum", "spec": "i,j->ij", "args": [1, 2]}]},
+    ]
+    for p in out:
+        p["outs"] = {"out": len(p["inputs"]) + len(p["calls"])}
+    return out
+
+
 def base_programs(tier: str, rng: np.random.Generator) -> list[dict]:
     quick = tier == "quick"
     progs: list[dict] = []
     progs += fam_elementwise() + fam_reduce() + fam_concat_special() + fam_reshape()
-    progs += fam_raw_il() + fam_special()
+    progs += fam_raw_il() + fam_special() + fam_symbolic()
     progs += list(progspace.fam_transpose([(2, 3), (2, 3, 2), (1, 2), (0, 2), (3,)]))
     rolls = list(progspace.fam_roll([(3,), (2, 3), (1,), (0, 2)]))
     progs += [p for k, p in enumerate(rolls) if not quick or k % 3 == 0]
